@@ -570,7 +570,7 @@ class ISD(model.Document):
     # https://www.w3.org/TR/ttml2/#style-attribute-direction-special-semantics
 
     if isinstance(element, model.Region) and \
-        (not element.has_style(styles.StyleProperties.Direction)) and \
+        (not isd_element.has_style(styles.StyleProperties.Direction)) and \
         element.get_style(styles.StyleProperties.WritingMode) in (styles.WritingModeType.lrtb, styles.WritingModeType.rltb):
       styles_to_be_computed.add(styles.StyleProperties.Direction)
       direction = styles.DirectionType.ltr if element.get_style(styles.StyleProperties.WritingMode) == styles.WritingModeType.lrtb \
